@@ -1085,7 +1085,7 @@ class Env:
                     # never reuse an incremental solver whose check was interrupted by its time
                     # limit: rebuild it from the asserted path condition
                     fresh = z3.SolverFor("QF_UFBV")
-                    fresh.set("timeout", min(eng.timeout_ms, eng.incremental_timeout_ms))
+                    fresh.set("rlimit", eng.rl(min(eng.timeout_ms, eng.incremental_timeout_ms)))
                     for a in self.solver.assertions():
                         fresh.add(a)
                     self.solver = fresh
@@ -1093,7 +1093,7 @@ class Env:
                     eng.rebuilds += 1
         if r == z3.unknown:
             s2 = z3.Solver()
-            s2.set("timeout", max(eng.timeout_ms, eng.vc_timeout_ms) if long else eng.timeout_ms)
+            s2.set("rlimit", eng.rl(max(eng.timeout_ms, eng.vc_timeout_ms) if long else eng.timeout_ms))
             for a in self.solver.assertions():
                 s2.add(a)
             for a in assumptions:
@@ -1275,7 +1275,7 @@ class Env:
             # last resort before declaring the VC inconclusive: one more one-shot attempt with a
             # three times longer limit (a loaded machine must not turn a provable VC into exit 2)
             s3 = z3.Solver()
-            s3.set("timeout", 3 * max(eng.timeout_ms, eng.vc_timeout_ms))
+            s3.set("rlimit", eng.rl(3 * max(eng.timeout_ms, eng.vc_timeout_ms)))
             for a_ in self.solver.assertions():
                 s3.add(a_)
             s3.add(z3.Not(cond))
@@ -1287,7 +1287,7 @@ class Env:
             # a counterexample from the incremental core is confirmed by a fresh one-shot solver
             # before it is believed (an interrupted incremental core has produced wrong answers)
             s4 = z3.Solver()
-            s4.set("timeout", 3 * max(eng.timeout_ms, eng.vc_timeout_ms))
+            s4.set("rlimit", eng.rl(3 * max(eng.timeout_ms, eng.vc_timeout_ms)))
             for a_ in self.solver.assertions():
                 s4.add(a_)
             s4.add(z3.Not(cond))
@@ -1527,6 +1527,15 @@ class Engine:
         self.xcheck_bin = "cvc5"
         self.xstats = {"submitted": 0, "agree": 0, "no_answer": 0, "disagree": [], "errors": [], "time_s": 0.0}
 
+    # Solver limits are z3 resource limits (deterministic work units), not wall-clock timeouts: a
+    # timer that fires while another call is already running on the same z3 context has produced
+    # lost assertions and wrong branch verdicts on a loaded machine.  RL_PER_MS converts the
+    # millisecond figures used throughout into resource units (measured: 3.4-5.5 M units/s).
+    RL_PER_MS = 4000
+
+    def rl(self, ms):
+        return max(1, min(int(ms * self.RL_PER_MS), 4_000_000_000))
+
     def push_alternative(self, prefix):
         self.queue.append(prefix)
 
@@ -1557,7 +1566,7 @@ class Engine:
             self.paths += 1
             reset_memo()
             self.solver = z3.SolverFor("QF_UFBV")
-            self.solver.set("timeout", min(self.timeout_ms, self.incremental_timeout_ms))
+            self.solver.set("rlimit", self.rl(min(self.timeout_ms, self.incremental_timeout_ms)))
             e = Env(self, list(prefix))
             set_env(e)
             r = PathResult()
@@ -1585,6 +1594,9 @@ class Engine:
 
                 r.status = "error"
                 r.error = "".join(traceback.format_exception(type(ex), ex, ex.__traceback__)[-6:])
+            if r.status == "ok" and self.solver is not None and len(e.solver.assertions()) != e.pc_len:
+                r.status = "error"
+                r.error = "solver holds %d assertions, the path added %d (solver glitch)" % (len(e.solver.assertions()), e.pc_len)
             r.trace = list(e.trace)
             r.claims = e.claims
             r.cut = e.cut
